@@ -36,7 +36,7 @@ def h_pair(ctx, cfg):
     try:
         with sym.concrete():
             R = S.embed(so, si, use_varargs=uva, use_varkwargs=uvk)
-    except S.IncompatibleSignatures:
+    except ValueError:          # (which ValueError subclass is C15's business)
         ctx.count('raised')
         if set(o.named) & set(i.named):
             ctx.count('raised-shared-name')
